@@ -362,7 +362,14 @@ class ClassParser(BaseParser):
             if unprovided(value):
                 # an invalid value under the 'exclude' policy: nothing is assigned
                 return
-            fset(_obj_self, value)
+            # the user's setter may fail half-way: an assignment that raises leaves the data as it was
+            before = dict(_obj_self.__dict__)
+            try:
+                fset(_obj_self, value)
+            except Exception:
+                _obj_self.__dict__.clear()
+                _obj_self.__dict__.update(before)
+                raise
 
         setter.__name__ = field.attname
         return setter
